@@ -1,5 +1,12 @@
 package q
 
+import "fmt"
+
+// maxVariableDepth is the number of variables that can be evaluated inside of
+// each other. It only exists to stop variables that refer to themselves (like
+// "X is X" or "X is Y; Y is X") from being evaluated forever.
+const maxVariableDepth = 100
+
 type VariableExpr struct {
 	Name string
 }
@@ -8,6 +15,15 @@ func (e *VariableExpr) Evaluate(engine *Engine, input interface{}, args []*State
 	v, err := engine.StatementByVariableName(e.Name)
 	if err != nil {
 		return nil, err
+	}
+
+	engine.variableDepth++
+	defer func() {
+		engine.variableDepth--
+	}()
+
+	if engine.variableDepth > maxVariableDepth {
+		return nil, fmt.Errorf("variable %s refers to itself", e.Name)
 	}
 
 	return v.Evaluate(engine, input)
